@@ -2,6 +2,8 @@
 (src/props/cNN.rs); this table only holds what the runner needs."""
 
 PROPS = {
+    "C17": dict(level="exploration", shards=16, thorough_layers=["stress", "tsan", "asan"],
+                layer_cfg={"tsan": dict(shards=2, timeout=3000), "stress": dict(shards=2, args={"mode": "stress"}), "asan": dict(scale=0.25, timeout=2400)}),
     "C16": dict(level="exploration", shards=16, thorough_layers=["asan", "miri"], layer_cfg={"asan": dict(scale=0.25, timeout=2400), "miri": dict(shards=16, timeout=3000)}),
     "C13": dict(level="exploration", shards=16, thorough_layers=["asan", "miri"], layer_cfg={"asan": dict(scale=0.25, timeout=2400), "miri": dict(shards=16, timeout=3000)}),
     "C11": dict(level="exploration", shards=16, thorough_layers=[]),
